@@ -188,6 +188,21 @@ func Entry(e *yang.Entry, o Opts, problems *[]string) *yref.XNode {
 			x.Extra[kw] = append(x.Extra[kw], fmt.Sprintf("?%T", v))
 		}
 	}
+	if e.Parent != nil {
+		// statements that only a module or submodule can carry have no business on a node
+		var hdr []string
+		for _, kw := range []string{"belongs-to", "contact", "namespace", "organization", "prefix", "yang-version"} {
+			if len(e.Extra[kw]) > 0 {
+				hdr = append(hdr, kw)
+			}
+		}
+		if len(hdr) > 0 {
+			if x.Extra == nil {
+				x.Extra = map[string][]string{}
+			}
+			x.Extra["header-statements-of-a-module-on-a-node"] = hdr
+		}
+	}
 	exts := e.Exts
 	if e.ListAttr != nil && e.Kind == yang.LeafEntry {
 		// A leaf-list is converted through a leaf made up from its fields, and both conversions file the
